@@ -41,6 +41,8 @@ import (
 // msgs  : comma list, one descriptor per message the client puts on the wire
 //         m<size>[r]  a valid message whose encoded size (before compression) is exactly <size>;
 //                     'a'-filled (highly compressible), with r: pseudo-random letters
+//         m<size>b<cut> (protobuf paths) a valid two-field message of <size> bytes whose first <cut> bytes are a
+//                     complete message too (a field boundary at <cut>): cutting it there goes unnoticed by the decoder
 //         g<size>     <size> bytes that are framed like a message but do not decode
 //         u<size>     (enc=gzip, gRPC family) a valid message sent with the compressed flag clear
 //         x<size>     (enc=gzip, gRPC family) compressed flag set, <size> bytes that are not gzip
@@ -179,6 +181,30 @@ func c08ProtoBytes(size int, random bool) ([]byte, bool) {
 		}
 	}
 	return nil, false
+}
+
+// c08Field: a length-delimited field of exactly total bytes (tag, length, payload); nil if impossible
+func c08Field(tag byte, total int, fill byte) []byte {
+	for _, ll := range []int{1, 2, 3} {
+		k := total - 1 - ll
+		if k < 0 {
+			continue
+		}
+		if l := protowire.SizeVarint(uint64(k)); l == ll {
+			b := protowire.AppendVarint([]byte{tag}, uint64(k))
+			return append(b, bytes.Repeat([]byte{fill}, k)...)
+		}
+	}
+	return nil
+}
+
+// c08TwoField: testpb.Message{message_id (cut bytes in all), text (the rest)}, size bytes
+func c08TwoField(size, cut int) []byte {
+	a, b := c08Field(0x0a, cut, 'i'), c08Field(0x12, size-cut, 't')
+	if a == nil || b == nil {
+		panic(fmt.Sprintf("c08: no two-field message of %d bytes with a boundary at %d", size, cut))
+	}
+	return append(a, b...)
 }
 
 // c08Wire: the bytes of one message on the wire (before compression / framing), the fingerprint
@@ -385,6 +411,7 @@ func c08Setup(recv, send int) *c08Env {
 
 type c08Desc struct {
 	kind   byte
+	cut    int // m<size>b<cut>
 	size   int
 	random bool
 	prefix uint64
@@ -408,6 +435,9 @@ func c08ParseDescs(s string) []c08Desc {
 		} else {
 			if strings.HasSuffix(body, "r") {
 				d.random, body = true, strings.TrimSuffix(body, "r")
+			}
+			if sz, cut, ok := strings.Cut(body, "b"); ok {
+				body, d.cut = sz, atoi(cut)
 			}
 			d.size = atoi(body)
 		}
@@ -697,6 +727,10 @@ func c08Run(o *out, input string) {
 				wire, flags, prefixes, fps = append(wire, b), append(flags, b2byte(gz && grpcFam)), append(prefixes, d.prefix), append(fps, -1)
 			default:
 				b, fp, valid := c08Wire(codec, d.kind, d.size, d.random)
+				if d.kind == 'm' && d.cut > 0 && codec == "proto" {
+					b = c08TwoField(d.size, d.cut)
+					fp, valid = d.size, true
+				}
 				if !valid {
 					fp = -1
 				}
@@ -1009,6 +1043,21 @@ func c08Gen(o *out, r *rng, tier string) {
 					emitR(p, lim, 64, "gzip", "stream", fmt.Sprintf("u%d", sz), "flag-clear")
 				}
 				emitR(p, lim, 64, "gzip", "stream", fmt.Sprintf("x%d", sz), "not-gzip")
+			}
+		}
+	}
+	// a message over the limit whose first <limit> bytes are a complete message as well: a reader that
+	// stops at the limit instead of refusing would hand the handler a truncated message
+	for _, p := range []string{"grpc", "web", "webtext", "hs-proto", "hu-proto"} {
+		for _, lim := range []int{5, 64, 128, 4096} {
+			for _, enc := range encs(p) {
+				for _, sh := range shapes(p, 1) {
+					for _, size := range []int{lim + 3, 2*lim + 7, 10 * lim} {
+						if c08Field(0x0a, lim, 'i') != nil && c08Field(0x12, size-lim, 't') != nil {
+							emitR(p, lim, 64, enc, sh, fmt.Sprintf("m%db%d", size, lim), "boundary-at-limit")
+						}
+					}
+				}
 			}
 		}
 	}
